@@ -303,14 +303,12 @@ class LibRefSim:
     for g, v in ins: vals[g] = v
     self.eval_comb()
     a = list(vals)
-    nxt = {}
+    # update_ff blocks read the settled values and write the shadow copy; a register (field) not assigned keeps its value
+    nxt = list(vals)
     for b in self.ff:
-      for t, e in b['asgs']:
-        if t[0] not in nxt: nxt[t[0]] = [vals[t[0]]]
-    scratch = list(vals)
+      for t, e in b['asgs']: rtlgen.ref_assign(nxt, t, rtlgen.ref_eval(e, vals))
     for b in self.ff:
-      for t, e in b['asgs']: rtlgen.ref_assign(scratch, t, rtlgen.ref_eval(e, vals))
-    for g in nxt: vals[g] = scratch[g]
+      for t, e in b['asgs']: vals[t[0]] = nxt[t[0]]
     self.eval_comb()
     return a, list(vals)
 
@@ -381,6 +379,7 @@ def failing_cycle(factory, td, cycles):
 
 def one_design(ck, rng, name, factory, opts, ncycles, n_ext, flows, rec, _cycles=None, _retry=None):
   t0 = time.time()
+  for k in ('rerun_fails', 'flows_refused_by_scheduler'): rec.pop(k, None)
   # 1. translate a fresh elaborated instance
   try:
     top = factory()
